@@ -212,11 +212,20 @@ impl<S: BuildHasher + Clone + 'static> ExpirationMap<S> {
 
     pub fn try_cleanup(&self, now: Time) -> Result<Option<HashMap<u64, u64, S>>, CacheError> {
         let bucket_num = cleanup_bucket(now);
-        Ok(self
-            .buckets
-            .write()
-            .remove(&bucket_num)
-            .map(|bucket| bucket.map))
+        let mut m = self.buckets.write();
+        // Ticks may be further apart than one bucket (the default interval is 2 s) or late:
+        // take every bucket that is due, not only the one of the current second.
+        let due: Vec<i64> = m.keys().copied().filter(|b| *b <= bucket_num).collect();
+        let mut items: Option<HashMap<u64, u64, S>> = None;
+        for b in due {
+            if let Some(bucket) = m.remove(&b) {
+                match items.as_mut() {
+                    None => items = Some(bucket.map),
+                    Some(items) => items.extend(bucket.map),
+                }
+            }
+        }
+        Ok(items)
     }
 
     pub fn hasher(&self) -> S {
